@@ -174,9 +174,12 @@ let id_next = INext ((fun p -> p), (fun i -> i))
 let id_back = INextBack ((fun p -> p), (fun i -> i))
 (* K may be as large as usize::MAX: an iterator over at most [cur_size] elements is
    exhausted (and, being fused, unchanged) after cur_size + 1 calls *)
+(* under take(N) the adaptor's own budget is consumed call by call whether or not the
+   inner iterator is exhausted, so the cap must also cover N *)
+let cur_cap : int ref = ref 0
 let small_k k = match int_of_string_opt k with
-  | Some k when k >= 0 && k <= !cur_size + 1 -> k
-  | _ -> !cur_size + 1
+  | Some k when k >= 0 && k <= !cur_cap -> k
+  | _ -> !cur_cap
 let expand_step s = match split_colon s with
   | ["nth"; k] -> let k = small_k k in (rep (k + 1) id_next, rep k false @ [true])
   | ["nthb"; k] -> let k = small_k k in (rep (k + 1) id_back, rep k false @ [true])
@@ -185,6 +188,9 @@ let script toks = match toks with
   | a :: e :: n :: rest ->
       let n = int_of_string n in
       if List.length rest <> n then raise (Bad "script length");
+      cur_cap := (match split_colon a with
+                  | ["take"; n] -> max (!cur_size + 1) (int_of_string n)
+                  | _ -> !cur_size + 1);
       let ex = List.map expand_step rest in
       (* count() / last() / collect(): std's defaults call next() until None:
          at most (size + 1) further calls; their outputs are summarised *)
